@@ -113,7 +113,7 @@ def plain_admin(rng):
 
 def gen_cases(rng, tier):
     thorough = tier == "thorough"
-    mult = 6 if thorough else 1
+    mult = 12 if thorough else 2
     cs = []
     for _ in range(170 * mult):
         cs.append(Case(plain_history(rng), "plain-send"))
